@@ -520,17 +520,20 @@ func (m *Memberlist) UpdateNode(timeout time.Duration) error {
 		}
 	}
 
-	// Get the existing node
+	// Get the existing node. Copy what we need while holding the lock: the
+	// record is rewritten under it by aliveNode, also on behalf of another
+	// UpdateNode call running at the same time.
 	m.nodeLock.RLock()
 	state := m.nodeMap[m.config.Name]
+	addr, port := state.Addr, state.Port
 	m.nodeLock.RUnlock()
 
 	// Format a new alive message
 	a := alive{
 		Incarnation: m.nextIncarnation(),
 		Node:        m.config.Name,
-		Addr:        state.Addr,
-		Port:        state.Port,
+		Addr:        addr,
+		Port:        port,
 		Meta:        meta,
 		Vsn:         m.config.BuildVsnArray(),
 	}
